@@ -10,6 +10,7 @@ import gen
 import ref
 import group_common as gc
 from harness import Part, Violation, Discard, with_timeout
+import isolate
 
 from bycycle.features import compute_features, compute_shape_features, compute_cyclepoints, compute_burst_features
 from bycycle.features.burst import (compute_amp_fraction, compute_amp_consistency, compute_period_consistency,
@@ -26,8 +27,8 @@ TITLE = 'Analysis functions are pure: no input mutation, no call-history depende
 REGISTER = True
 TECHNIQUE = ('history-based property testing: Hypothesis draws sequences of public API calls that SHARE one signal array, one set of '
              'option dictionaries and the tables produced by earlier calls; after every call a deep snapshot of each argument object is '
-             'compared with the one taken before, the result is compared with the same call replayed in a pristine world (deep copies '
-             'that never saw the history) and with an immediate repetition of the call')
+             'compared with the one taken before, the result is compared with the same call executed on deep copies in a process without '
+             'any call history (forked from a server started before the shard ran any analysis code) and with an immediate repetition')
 LEVEL_TEXT = ('Generated-history search: 400 sequences of 2-12 calls over 26 API functions (quick), 12k (thorough), both burst methods and '
               'centrings, dict / list group options, tables passed to several consumers, read-only and strided signal views. '
               'Sampling, not exhaustive.')
@@ -265,7 +266,27 @@ def run_call(fn, args, kwargs):
         plt.close('all')
 
 
+ZYGOTE = None
+
+
+def clean_process_call(fn, args, kwargs):
+    """the call executed in a process without any call history (see isolate.Zygote); -> outcome tuple like run_call"""
+    global ZYGOTE
+    if ZYGOTE is None:
+        ZYGOTE = isolate.Zygote()          # forked before this shard has run any analysis code
+    res = ZYGOTE.call(fn, [a for _, a in args], kwargs)
+    if res[0] == 'ok':
+        return 'ok', res[1]
+    if res[0] == 'raises':
+        return res[1], res[2]
+    if res[0] == 'timeout':
+        raise Discard('clean-process call did not return (inconclusive)')
+    return None                             # server lost / crashed: fall back to the in-process replay
+
+
 def check(case, rec):
+    if ZYGOTE is None:
+        clean_process_call(len, [('x', [])], {})     # start the server now, before anything else runs
     shared = World(case)
     pristine_case = copy.deepcopy(case)
     pristine = World(pristine_case)      # replays the same history on objects that are deep-copied before every call
@@ -289,7 +310,10 @@ def check(case, rec):
         # pristine world: same call on deep copies of objects that only ever saw deep-copied use
         pspec = call_spec(name, pristine, op)
         pfn, pargs, pkwargs, _ = pspec
-        pout = run_call(pfn, [(l, copy.deepcopy(o)) for l, o in pargs], copy.deepcopy(pkwargs))
+        pout = clean_process_call(pfn, [(l, copy.deepcopy(o)) for l, o in pargs], copy.deepcopy(pkwargs))
+        if pout is None:
+            rec.label('clean-process-unavailable')
+            pout = run_call(pfn, [(l, copy.deepcopy(o)) for l, o in pargs], copy.deepcopy(pkwargs))
         if out[0] != pout[0]:
             raise Violation('history-dependent:%s' % name.split('[')[0], 'step %d %s: %s after the history %s, %s when called on untouched copies (%s)' % (
                 step, name, out[0], executed, pout[0], out[1] if out[0] != 'ok' else pout[1]))
@@ -304,6 +328,13 @@ def check(case, rec):
         if produces and out[0] == 'ok':
             shared.tables[produces] = out[1]
             pristine.tables[produces] = pout[1]
+        if case.get('refill') and step == case['refill'] % max(1, len(case['calls'])) and shared.sig.flags.writeable:
+            # the caller refills the SAME signal buffer with another recording (its array, its right); later results must
+            # be those of the new contents
+            other = gen.render_signal(case['signals'][1]).astype(shared.sig.dtype)
+            shared.sig[:] = other[:len(shared.sig)]
+            pristine.sig[:] = other[:len(pristine.sig)]
+            executed.append('<signal refilled in place>')
         if 'amp' in name:
             amp_calls += 1
         if name.startswith('compute_features') or name.startswith('compute_burst') or name == 'recompute_edges':
@@ -314,7 +345,8 @@ def check(case, rec):
     for n in set(executed):
         rec.label('call:' + n.split('[')[0])
     shared_table = any(v >= 2 for v in table_consumers.values())
-    rec.label('calls:%d' % len(executed), 'amp' if amp_calls else 'no-amp', 'table-shared' if shared_table else 'no-shared-table',
+    rec.label('signal-refilled' if '<signal refilled in place>' in executed else 'signal-constant')
+    rec.label('calls:%d' % len([e for e in executed if not e.startswith('<')]), 'amp' if amp_calls else 'no-amp', 'table-shared' if shared_table else 'no-shared-table',
               'sig:' + case['sig_view'])
     rec.nontrivial((dict_users >= 2 and amp_calls >= 1) or shared_table)
 
@@ -346,7 +378,8 @@ def strategy(draw, tier):
     if draw(st.booleans()):
         fek['boundary'] = draw(st.sampled_from([0, 2, 5]))
     return {'fs': band['fs'], 'f_range': band['f_range'], 'signals': signals, 'calls': calls, 'bk': bk, 'th_amp': th_amp, 'th_cyc': th_cyc,
-            'fek': fek, 'center': draw(st.sampled_from(['peak', 'trough'])), 'sig_view': draw(st.sampled_from(['plain', 'plain', 'readonly', 'strided']))}
+            'fek': fek, 'center': draw(st.sampled_from(['peak', 'trough'])), 'sig_view': draw(st.sampled_from(['plain', 'plain', 'readonly', 'strided'])),
+            'refill': draw(st.one_of(st.none(), st.integers(0, 6)))}
 
 
 PARTS = [Part('call-histories', check, strategy=strategy, budget={'quick': 400, 'thorough': 12000}, shards={'quick': 16, 'thorough': 16},
